@@ -734,3 +734,70 @@ pub fn selftest() -> i32 {
         }
     }
 }
+
+/// Determinism proof: every seed of every profile is run twice, in different processes and at
+/// different worker counts (16 striding workers vs 3), and fingerprints, outcome hashes and
+/// the digest of every serialized object produced are compared.
+pub fn determinism(n: u64) -> i32 {
+    let props = ["C01", "C03", "C04", "C05", "C06", "C07", "C08", "C09", "C10", "C11", "C12", "C13", "C14", "C16", "C17", "C18"];
+    let mut bad = 0u64;
+    let mut total = 0u64;
+    for prop in props {
+        let collect = |workers: u64| -> BTreeMap<u64, (u64, u64, u64, usize)> {
+            let per = n.div_ceil(workers);
+            let children: Vec<Child> = (0..workers)
+                .map(|w| {
+                    Command::new(exe())
+                        .args(["worker", prop, "quick", &(777_000 + w).to_string(), &per.to_string(), &workers.to_string()])
+                        .stdout(Stdio::piped())
+                        .stderr(Stdio::null())
+                        .spawn()
+                        .expect("spawn")
+                })
+                .collect();
+            let mut m = BTreeMap::new();
+            for c in children {
+                let out = c.wait_with_output().expect("wait");
+                for l in String::from_utf8_lossy(&out.stdout).lines() {
+                    if let Some(s) = l.strip_prefix("END ") {
+                        if let Ok(r) = serde_json::from_str::<RunResult>(s) {
+                            if r.seed < 777_000 + n {
+                                m.insert(r.seed, (r.fingerprint, r.outcome_hash, r.bytes_digest, r.events));
+                            }
+                        }
+                    }
+                }
+            }
+            m
+        };
+        let a = collect(16);
+        let b = collect(3);
+        let mut prop_bad = 0;
+        for (seed, va) in &a {
+            total += 1;
+            match b.get(seed) {
+                Some(vb) if vb == va => {}
+                other => {
+                    prop_bad += 1;
+                    if prop_bad <= 3 {
+                        eprintln!("DIVERGENCE {prop} seed {seed}: {:?} vs {:?}", va, other);
+                    }
+                }
+            }
+        }
+        println!("{prop}: {} seeds run twice (16 workers vs 3 workers), {} divergences", a.len(), prop_bad);
+        bad += prop_bad;
+    }
+    let _ = std::fs::create_dir_all(format!("{VERIF}/evidence"));
+    let _ = std::fs::write(
+        format!("{VERIF}/evidence/determinism.json"),
+        serde_json::to_string_pretty(&json!({"seeds_per_profile": n, "profiles": props.len(), "executions_compared": total, "divergences": bad, "compared": ["run fingerprint (event kinds, outcomes, abstract states)", "outcome hash", "digest of every serialized object produced (keys, encapsulations, MSK, MPK)"], "worker_counts": [16, 3], "features": wire::FEATURES})).unwrap(),
+    );
+    if bad == 0 {
+        println!("determinism ok: {total} seeds compared");
+        0
+    } else {
+        eprintln!("HARNESS ERROR: {bad} non-deterministic runs");
+        2
+    }
+}
